@@ -575,6 +575,8 @@ static int restore_interior_string (char **val, svalue_t * sv) {
               {
                 while ((c = *cp++) != '"')
                   {
+                    if (c == '\0') /* text ends inside the string */
+                      return ROB_STRING_ERROR;
                     if (c == '\\')
                       {
                         if (!(*newp++ = *cp++))
@@ -1215,6 +1217,8 @@ int restore_string (char *val, svalue_t * sv) {
               {
                 while ((c = *cp++) != '"')
                   {
+                    if (c == '\0') /* text ends inside the string */
+                      return ROB_STRING_ERROR;
                     if (c == '\\')
                       {
                         if (!(*newp++ = *cp++))
